@@ -280,7 +280,7 @@ def run(ctx):
         "RobinHoodMC!MCIterDeleteShrink", "RobinHoodMC!MCIterDeleteSlot0", "RobinHoodMC!MCForEach"])
     cfgs = ["MC.cfg", "MC_grow.cfg", "MC_cluster.cfg", "MC_obj.cfg"]
     if thorough:
-        cfgs += ["MC_grow_thorough.cfg", "MC_cluster_thorough.cfg"]
+        cfgs += ["MC_grow4.cfg", "MC_grow_thorough.cfg", "MC_cluster_thorough.cfg"]
     for cfg in cfgs:
         ctx.mc(SPEC_DIR, "RobinHoodMC", cfg, timeout=6000, xmx="16g", coverage=False)
     # 2. model -> code ------------------------------------------------------------------------------------
